@@ -53,6 +53,13 @@ type Profile struct {
 	NoIter                                                   bool
 }
 
+func (p *Profile) extra2Pct() int {
+	if p.WDrop > 0 {
+		return 6 // drops are heavy and block writes: a few per run
+	}
+	return 20
+}
+
 func genConfig(t *rapid.T, p *Profile) Config {
 	var c Config
 	if p.SmallMem {
@@ -253,7 +260,7 @@ func genClient(t *rapid.T, p *Profile, cfg *Config, nkeys, maxOps int) []Op {
 			w int
 			k string
 		}
-		if tot := p.WDiscardTs + p.WMBatch + p.WGC + p.WDrop; tot > 0 && rapid.IntRange(0, 99).Draw(t, "extra2") < 20 {
+		if tot := p.WDiscardTs + p.WMBatch + p.WGC + p.WDrop; tot > 0 && rapid.IntRange(0, 99).Draw(t, "extra2") < p.extra2Pct() {
 			x := rapid.IntRange(0, tot-1).Draw(t, "extra2_kind")
 			switch {
 			case x < p.WDiscardTs:
@@ -340,6 +347,9 @@ func genClient(t *rapid.T, p *Profile, cfg *Config, nkeys, maxOps int) []Op {
 			continue
 		}
 		cs := []choice{{p.WGet, "get"}, {p.WIter, "iter"}}
+		if p.WGC > 0 {
+			cs = append(cs, choice{3, "get_hold"}, choice{2, "iter_hold"}, choice{4, "read_held"})
+		}
 		if slots[s] == 2 {
 			if writes[s] < maxWrites {
 				cs = append(cs, choice{p.WSet, "set"}, choice{p.WDel, "del"})
@@ -362,7 +372,7 @@ func genClient(t *rapid.T, p *Profile, cfg *Config, nkeys, maxOps int) []Op {
 		}
 		op := Op{K: k, S: s}
 		switch k {
-		case "get", "del":
+		case "get", "del", "get_hold", "iter_hold":
 			op.Key = rapid.IntRange(0, nkeys-1).Draw(t, "key")
 			if k == "del" {
 				writes[s]++
